@@ -405,6 +405,49 @@ fn check_doc(doc: &Doc, c: &Cfg) -> Vec<Viol> {
             }
         }
     }
+    // documents of another provenance: the same content assembled from (name, value) pairs, and the parsed document with
+    // every field set again to its own value (entries rebuilt by the editor); same content, strict, idempotent
+    if c.porder == 0 && c.eorder == 0 && out.is_empty() {
+        let built: Deb822 = doc
+            .paras
+            .iter()
+            .filter(|p| !p.is_empty() && p.iter().all(|(_, v)| !v.is_empty() && !v.starts_with('\n') && v.lines().all(|l| !l.starts_with('#'))))
+            .map(|p| p.iter().map(|(k, v)| (k.as_str(), v.as_str())).collect::<Paragraph>())
+            .collect();
+        let reset = Deb822::from_str(text).ok();
+        if let Some(r) = &reset {
+            for (mut p, m) in r.paragraphs().zip(doc.paras.iter()) {
+                let mut seen: Vec<&str> = vec![];
+                for (k, v) in m {
+                    // set() touches the first field of a name: only names that occur once, values the editor accepts
+                    if m.iter().filter(|(k2, _)| k2 == k).count() == 1 && !v.is_empty() && !v.starts_with('\n') && v.lines().all(|l| !l.starts_with('#')) && !seen.contains(&k.as_str()) {
+                        p.set(k, v);
+                        seen.push(k);
+                    }
+                }
+            }
+        }
+        for (label, dv) in [("assembled from pairs", Some(built)), ("every field set again", reset)] {
+            let Some(dv) = dv else { continue };
+            let before = content_of(&dv);
+            let r = wrap_doc(&dv, c);
+            let t = r.to_string();
+            let ctxv = |what: &str| format!("input {:?} ({}: {:?}) cfg {:?} output {:?}: {}", text, label, dv.to_string(), c, t, what);
+            match Deb822::from_str(&t) {
+                Err(e) => out.push(viol("result-parses", ctxv(&e.to_string().replace('\n', "; ")))),
+                Ok(re) => {
+                    let want: Vec<PContent> = before.iter().map(|p| p.iter().map(|(k, l)| (k.clone(), expected_lines(&l.join("\n"), c))).collect()).collect();
+                    if content_of(&re) != want {
+                        out.push(viol("content-kept", ctxv(&format!("content {:?} expected {:?}", content_of(&re), want))));
+                    }
+                    let again = wrap_doc(&r, c).to_string();
+                    if again != t {
+                        out.push(viol("idempotent", ctxv(&format!("second application gives {:?}", again))));
+                    }
+                }
+            }
+        }
+    }
     // the control-file wrapper on a document without control-specific field names is the deb822-level reformatting with
     // the identity formatter and a paragraph order in which all paragraphs tie
     if c.porder == 0 && c.eorder == 0 && c.fmt == 1 {
